@@ -320,6 +320,33 @@ def rule_api_ledger(ctx):
     ctx.floor(R, "ledgered std call kinds present", sum(1 for k in API_LEDGER if k in cnt), 20)
 
 
+def rule_division_asserts(ctx, R="C01.14", only_file=None):
+    ctx.rule(R, "no integer division or remainder whose divisor can be zero: rustc emits a `DivisionByZero` / `RemainderByZero` check (a panic) for every `/` and `%` on machine integers whose divisor is not a non-zero constant; hand-written code reachable from main contains none (big-integer division goes through the zero-tested helpers of C16.1)")
+    idx = mirlib.index()
+    seen = reachable_from_main()
+    if seen is None:
+        return ctx.missing(R, "circomspect::main")
+    n = 0
+    scanned = 0
+    for f in sorted(seen):
+        fn = idx.get(f)
+        if fn is None or fn.get("gen"):
+            continue
+        if only_file and not fn["file"].endswith(only_file):
+            continue
+        scanned += 1
+        for b in fn["blocks"]:
+            t = b["term"]
+            if b.get("cleanup") or t["k"] != "assert" or t.get("exp"):
+                continue
+            if str(t.get("msg")).startswith(("DivisionByZero", "RemainderByZero")):
+                n += 1
+                ctx.bad(R, "%s/%s" % (fn["pretty"], str(t.get("msg"))[:16]), "an integer division by a value that can be zero (%s:%s): the process panics instead of finishing" % (fn["file"], t.get("line")), (fn["file"], t.get("line")))
+    ctx.floor(R, "functions scanned for division checks", scanned, 5 if only_file else 900)
+    if not n:
+        ctx.ok(R, "no-division-by-a-possibly-zero-integer", "no DivisionByZero / RemainderByZero check in %d functions" % scanned)
+
+
 def regex_lang(rx):
     """tiny classifier for the terminal regexes: returns dict(min_len, alphabet(set) or None, prefix)"""
     import sre_parse
@@ -462,8 +489,12 @@ def run(ctx):
     rule_byte_cuts(ctx)
     rule_index_ledger(ctx)
     rule_api_ledger(ctx)
+    rule_division_asserts(ctx)
     rule_main_component_filled(ctx)
     ctx.include("C01.8", "discharges the lifting panics: desugaring forgets no position and eliminates / rejects the node kinds the lifting cannot handle (shared with C18.1/C18.2/C18.3)", c18.rule_flow, c18.rule_elimination, c18.rule_contains)
     ctx.include("C01.13", "discharges the indexing and unwraps of the anonymous-component expansion: the argument list is matched against the declared inputs by the same list the expansion walks (shared with C18.4)", c18.rule_binding)
+    import c14
+
+    ctx.include("C01.15", "discharges `NonEmptyVec from a version range that is never empty` (update_declarations): the versions declared for a local are the whole range, or 0..1 when there is none (shared with C14.6)", c14.rule_declarations, only=["local-versions", "locals-all-versions"])
     ctx.include("C01.9", "discharges Meta::get_file_id and the renderer's label assertion: every node gets its file id, spans are ordered token boundaries (shared with C04.4/C04.5)", c04.rule_grammar_spans, c04.rule_fill)
     ctx.include("C01.10", "discharges indexing of template arguments: an instantiation is inspected only after its name and arity were tested (shared with C11.3)", lambda c: c11.rule_thresholds(c, c11.rule_primes(c) or {}), only=["name-and-arity", "update_components", "size-is-first-argument", "table/no-panic", "table/nothing-else-flagged"])
